@@ -45,7 +45,7 @@ def _task(contract_idx, prop, tier, repo, budget_scale, conn):
         def harness(ctx):
             c = dsl.SymContext(ctx, ct, summaries=summ)
             try:
-                ct.fn(c, **ct.params)
+                ct.fn(c, **{k: v for k, v in ct.params.items() if not k.startswith('_')})
             except I.PyRaise as pr:
                 ctx.oblige('no-unexpected-exception', False,
                            {'exception': pr.exc.cls.name, 'args': repr(pr.exc.attrs.get('args'))[:200]}, kind='noexc')
@@ -106,7 +106,8 @@ def _task(contract_idx, prop, tier, repo, budget_scale, conn):
 def run_pool(prop, contracts, tier, repo, only=None):
     ctx = mp.get_context('fork')
     todo = [i for i, c in enumerate(contracts)
-            if (tier == 'thorough' or c.tier == 'quick') and (only is None or only in c.ident())]
+            if (tier == 'thorough' or c.tier == 'quick') and (only is None or only in c.ident())
+            and not c.params.get('_bounded_only')]
     results = {}
     running = {}
     hard_limit = 900 if tier == 'quick' else 7200
